@@ -4,7 +4,8 @@
    to a nondeterministic per-item result (ok / err); with the context cancelled a sub-run returns an error.       *)
 EXTENDS Naturals, Sequences, FiniteSets, TLC
 CONSTANTS N,        \* number of items
-          Par       \* parallelism
+          Par,      \* parallelism
+          AbortedCountAsFailed   \* TRUE: the repaired engine
 Items == 1..N
 VARIABLES phase,    \* "enabling" | "awaitExec" | "executing" | "collected" | "closedEarly" | "disabled" | "silent"
           enabledIn,\* "none" | "T" | "F"
@@ -46,7 +47,9 @@ Finish(i) == /\ phase = "executing" /\ ist[i] = "running"
              /\ sem' = sem - 1                      \* the deferred release
              /\ UNCHANGED <<phase, enabledIn, execIn, ctx, closedFlag, notif, closePc, wgRun>>
 AllDone == \A i \in Items : ist[i] \in {"ok", "err", "aborted"}
-Failed == {i \in Items : ist[i] = "err"}
+\* an aborted item has no result and counts as failed (engine repair 503c7f3; AbortedCountAsFailed = FALSE is the engine
+\* before it, in which SuccessOnlyIfAllOk is violated: success with holes)
+Failed == {i \in Items : ist[i] = "err" \/ (AbortedCountAsFailed /\ ist[i] = "aborted")}
 Collect == /\ phase = "executing" /\ AllDone
            /\ notif' = notif \o (IF Failed = {}
                                    THEN <<N3("SC", "execute", "nil"), N3("F", "failed", "nil"), N3("CO", "outputs", "success")>>
@@ -68,8 +71,8 @@ FairSpec == Spec /\ WF_vars(RunNext) /\ WF_vars(CloseCancel) /\ WF_vars(CloseWai
 WithinParallelism == Cardinality({i \in Items : ist[i] = "running"}) <= Par /\ sem <= Par
 SemMatches == sem = Cardinality({i \in Items : ist[i] = "running"})
 Completions == {k \in DOMAIN notif : notif[k].k = "CO"}
-\* Model-found lead (violated in this model, as in the code): items aborted by Close leave no error entry, so a loop
-\* closed while items are still queued reports SUCCESS with holes.  Not in the cfg; reproduced on the code by check C13.
+\* Found in this model first: items aborted by Close left no error entry, so a loop closed while items were still queued
+\* reported SUCCESS with holes.  Reproduced on the code by check C13 (cancel-between-items), repaired, now an invariant.
 SuccessOnlyIfAllOk == \A k \in Completions : notif[k].out = "success" => \A i \in Items : ist[i] = "ok"
 SuccessOnlyIfNoneFailedOrClosed == \A k \in Completions : notif[k].out = "success" => (Failed = {} /\ (~ctx => \A i \in Items : ist[i] = "ok"))
 FailureOnlyIfSomeErr == \A k \in Completions : notif[k].out = "error" => Failed # {}
